@@ -2,7 +2,9 @@ package extract
 
 import (
 	"fmt"
+	"go/ast"
 	"math"
+	"strings"
 
 	"github.com/influxdata/influxdb/tsdb/engine/tsm1"
 	"github.com/jwilder/encoding/simple8b"
@@ -48,6 +50,37 @@ func init() {
 		f.NatList("pow10Table", pows)
 		f.NatList("walEntryTypes", []uint64{uint64(tsm1.WriteWALEntryType), uint64(tsm1.DeleteWALEntryType), uint64(tsm1.DeleteRangeWALEntryType)})
 		f.NatList("blockTypes", []uint64{uint64(tsm1.BlockFloat64), uint64(tsm1.BlockInteger), uint64(tsm1.BlockBoolean), uint64(tsm1.BlockString), uint64(tsm1.BlockUnsigned)})
+		// the WAL reader does not size a buffer by the length field of an entry before the
+		// bytes are there: Next reads through readFullGrowing and nowhere asks the pool for a
+		// buffer of `length` bytes
+		src, err := Parse(repo, "tsdb/engine/tsm1/wal.go")
+		if err != nil {
+			return err
+		}
+		next := src.Func("WALSegmentReader", "Next")
+		if next == nil {
+			return fmt.Errorf("C13: WALSegmentReader.Next not found")
+		}
+		grows, sizedByLength := false, false
+		ast.Inspect(next, func(n ast.Node) bool {
+			c, ok := n.(*ast.CallExpr)
+			if !ok {
+				return true
+			}
+			switch src.Text(c.Fun) {
+			case "readFullGrowing":
+				grows = true
+			case "getBuf", "make":
+				for _, a := range c.Args {
+					if strings.Contains(src.Text(a), "length") {
+						sizedByLength = true
+					}
+				}
+			}
+			return true
+		})
+		f.Bool("walLengthNotTrusted", grows && !sizedByLength)
+		f.Nat("walReadChunk", uint64(tsm1.VerifWALReadChunk))
 		return f.Write(out)
 	})
 }
